@@ -78,5 +78,18 @@ pub open spec fn unique_ok<V, S>(db: Db, uq: Seq<Attribute>, cand: Seq<Entry<V, 
 }
 
 //@extract enforce_unique
+// the plugin hooks that run before every create / modify / batch modify / refresh
+pub struct CreateEvent { pub o: u8 } pub struct ModifyEvent { pub o: u8 } pub struct BatchModifyEvent { pub o: u8 }
+pub struct EntryInvalid { pub o: u8 } pub struct EntryNew { pub o: u8 } pub struct EntryCommitted { pub o: u8 } pub struct EntrySealed { pub o: u8 } pub struct EntryRefresh { pub o: u8 }
+pub type EntrySealedCommitted = Entry<EntrySealed, EntryCommitted>;
+pub type EntryRefreshNew = Entry<EntryRefresh, EntryNew>;
+pub struct Arc<T> { pub v: T }
+pub struct AttrUnique;
+impl AttrUnique {
+//@extract pre_create_transform
+//@extract pre_modify
+//@extract pre_batch_modify
+//@extract pre_repl_refresh
+}
 }
 fn main(){}
